@@ -15,7 +15,7 @@ TNext ==
     \/ Is("push") /\ Push(Rec.t) /\ Adv
     \/ Is("pop") /\ Pop(Rec.t) /\ Adv
     \/ Is("tld") /\ SetTld(Rec.t, Rec.v) /\ Adv
-    \/ Is("check") /\ Check(Rec.t, Rec.depth, Rec.tld, Rec.ok = 1) /\ Adv
+    \/ Is("check") /\ Check(Rec.t, Rec.depth, Rec.tld, Rec.ok = 1, Rec.fp_ok = 1) /\ Adv
     \/ Is("finish") /\ Finish(Rec.t) /\ Adv
     \/ Is("reset") /\ (\A t \in Task : st[t] \in {"none", "done"}) /\ UNCHANGED vars /\ Adv
 TSpec == TInit /\ [][TNext]_tvars
